@@ -41,7 +41,7 @@ def contract_inputs(contract, size):
 
 def try_confirm(group, size, model):
     """model of a bounded obligation -> confirmation dict"""
-    c = group.contract
+    c = getattr(group, 'finder_contract', None) or group.contract
     ctx = contract_inputs(c, size)
     values = confirm.inputs_from_model(ctx.inputs, model)
     r = confirm.confirm(c, size, values, compiled_standin=c.rel.endswith('.pyx'))
@@ -71,6 +71,36 @@ def regrid(smt, ctx, bits=6, timeout_ms=20000):
     return None
 
 
+def other_model(smt, ctx, previous, timeout_ms=15000):
+    """a model that differs from all previous ones in at least one real input by a clear margin"""
+    s = z3.Solver()
+    s.set('timeout', timeout_ms)
+    s.from_string(smt)
+    names = []
+    for p, d in ctx.inputs.items():
+        if d[0] == 'array' and isinstance(d[2], int):
+            names += ["%s_%d" % (d[1], k) for k in range(d[2])]
+        elif d[0] == 'real':
+            names.append(d[1])
+    for m in previous:
+        diffs = []
+        for nm in names:
+            if nm in m:
+                try:
+                    v = confirm.parse_num(m[nm])
+                except Exception:
+                    continue
+                x = z3.Real(nm)
+                val = z3.RealVal(str(v))
+                diffs.append(z3.Or(x - val > z3.RealVal('1/1000') * z3.If(val >= 0, val, -val) + z3.RealVal('1/1000000000000'),
+                                   val - x > z3.RealVal('1/1000') * z3.If(val >= 0, val, -val) + z3.RealVal('1/1000000000000')))
+        if diffs:
+            s.add(z3.Or(*diffs))
+    if s.check() == z3.sat:
+        return solve._model_dict(s.model())
+    return None
+
+
 def find_counterexample(group, failure, finder_tasks, log):
     """-> (verdict, confirmation) ; verdict in violation / mismatch / none"""
     from .groups.base import GROUPS, gen_worker
@@ -78,23 +108,39 @@ def find_counterexample(group, failure, finder_tasks, log):
     if failure.get('model') and failure.get('task') and failure['task'][0] == 'B':
         cands.append((failure['task'][1], failure['model'], failure.get('smt')))
     for (size, model, smt) in cands:
-        ctx = contract_inputs(group.contract, size)
+        ctx = contract_inputs(getattr(group, 'finder_contract', None) or group.contract, size)
         grid = None
         if smt:
             try:
                 grid = regrid(smt, ctx)
             except Exception:
                 grid = None
-        for m in ([grid] if grid else []) + [model]:
+        tried = ([grid] if grid else []) + [model]
+        mismatch = None
+        for attempt in range(6):
+            if attempt < len(tried):
+                m = tried[attempt]
+            else:
+                # the model may sit exactly on a boundary where float and real arithmetic part (x <= tol with x == tol):
+                # ask for further, different models before giving up
+                m = other_model(smt, ctx, tried) if smt else None
+                if m is None:
+                    break
+                tried.append(m)
             if hasattr(group, 'relations'):
                 from .relational import confirm_relational
                 rname = failure['subgoals'][0].split('.')[0]
                 r = confirm_relational(group, size, rname, m)
             else:
                 r = try_confirm(group, size, m)
-            if r['verdict'] in ('violation', 'mismatch'):
+            if r['verdict'] == 'violation':
                 r['size'] = list(size)
-                return r['verdict'], r
+                return 'violation', r
+            if r['verdict'] == 'mismatch' and mismatch is None:
+                r['size'] = list(size)
+                mismatch = r
+        if mismatch is not None:
+            return 'mismatch', mismatch
     return 'none', None
 
 
@@ -102,7 +148,7 @@ def run_finder(group, known, log):
     """bounded search for a failing input of a P group: same contract, B mode, growing sizes"""
     from .groups.base import merge_by_hyp
     from . import harness
-    c = group.contract
+    c = getattr(group, 'finder_contract', None) or group.contract
     from .groups.base import compile_known
     c.known = tuple(compile_known(known))
     pool = solve.pool()
@@ -147,7 +193,9 @@ def check_property(pid, tier, cache=True, only_groups=None):
     def log(s):
         print(s, flush=True)
 
-    known_all = [k for k in load_known() if (k.get('property') == pid or pid in k.get('also_properties', [])) and k.get('status') == 'known']
+    # a recorded finding applies to every check that runs the obligation group it lives in
+    known_all = [k for k in load_known() if k.get('status') == 'known' and
+                 (set([k.get('group')] + list(k.get('groups', []))) & set(gnames))]
     known_by_group = {}
     for k in known_all:
         if k.get('carve_out') and k.get('group'):
